@@ -13,6 +13,17 @@ Proof. reflexivity. Qed.
 Lemma gen_accesses_ok : accesses_ok registry_accesses = true.
 Proof. vm_compute. reflexivity. Qed.
 
+(** nothing ordered is built by iterating a set (the order would depend on the process' string hash seed), no session
+    accessor caches a stateful builder, no builder is applied in place to a frame's expression tree *)
+Lemma gen_no_set_iteration : set_iterations = [].
+Proof. reflexivity. Qed.
+
+Lemma gen_accessors_ok : accessors_ok session_accessors = true.
+Proof. vm_compute. reflexivity. Qed.
+
+Lemma gen_no_inplace_builders : inplace_builder_calls = [].
+Proof. reflexivity. Qed.
+
 Lemma gen_names_by_content : hash_over_rendered_text = true /\ singleton_session = true /\ counter_start = counter st0.
 Proof. repeat split. Qed.
 
